@@ -13,6 +13,11 @@ decrypts, which address-derived value enters the cipher, what the ROM must find 
        and ROM models, AES block function of `cryptography` only) loads the EXPORTED key blobs and reads the EXPORTED image cell by
        cell, logging per cell the context it selected, the cipher input and whether its output equals the plaintext.
  TV  : TLC (FlashEncTrace) recomputes every logged number from the case and demands ok = TRUE for every cell, every cut, every blob.
+ HIST: c13_hist.py + FlashEncHist*.tla - the history of ONE object (Export / BinaryImage / ExportKeyBlobs repeated in any order on an
+       Otfad / OtfadNxp / BeeNxp / Iee / IeeNxp object): every image equals the first one and is read back as the plaintext, every
+       set of key blobs loads as configured.  Histories enumerated by TLC, run on a representative configuration of every engine and mode.
+ Exit codes: nothing SPSDK does may end as a machinery failure - both canaries work on STORED traces (anchors/C13/canary_*.json, no SPSDK
+       call), every call into SPSDK is guarded and a refusal / crash becomes an observation no spec step matches (exit 1, VIOLATION).
 """
 import json
 import os
@@ -364,6 +369,8 @@ def local_events(cc, plain, whole, enc, rule=None, joint=None):
             note = ""
         except SPSDKError as x:
             ok, note = False, f"refused: {x}"[:120]
+        except Exception as x:  # noqa: BLE001 - a crash of SPSDK on a piece is an observation (whole != pieces), never a failure of the machinery
+            ok, note = False, f"crash: {type(x).__name__}: {x}"[:120]
         ev = {"e": "Local", "s": s, "ok": ok}
         if note:
             ev["note"] = note
@@ -420,6 +427,24 @@ def flip(data, bitno):
     b = bytearray(data)
     b[bitno // 8] ^= 1 << (bitno % 8)
     return bytes(b)
+
+
+def otfad_blob_events(cc, m, table, kek, kbswap, hwscr):
+    """The ROM model loads an exported OTFAD key-blob table -> (one Blob event per record, the contexts the engine then holds)."""
+    recs = hw.otfad_load_table(table.ljust(256, b"\0"), kek, 4, kbswap, hwscr)
+    evs, ctxs = [], []
+    for j, rec in enumerate(recs, start=1):
+        ctx = rec["ctx"]
+        ev = {"e": "Blob", "j": j, "authOk": rec["ivOk"], "crcOk": rec["crcOk"], "lo": limbs(rec["srt"]), "hi": limbs(ctx.hi),
+              "vld": rec["ivOk"] and ctx.vld, "ade": rec["ivOk"] and ctx.vld and ctx.ade, "keyOk": True, "ctrOk": True, "attrOk": True}
+        if j <= len(cc["regs"]):
+            g, mg = cc["regs"][j - 1], m["regs"][j - 1]
+            ev["keyOk"] = rec["key"] == mg["key"][:16]
+            ev["ctrOk"] = rec["ctr"] == mg["ctr"]
+            ev["attrOk"] = (rec["end"] & 7) == g["flags"]  # RO / ADE / VLD exactly as configured
+        evs.append(ev)
+        ctxs.append(ctx if rec["ivOk"] else None)
+    return evs, ctxs
 
 
 def exec_otfad(cc, m):
@@ -485,20 +510,8 @@ def exec_otfad(cc, m):
         if cc.get("tamper"):
             j = m["tamper"] % len(cc["regs"])
             tab = flip(table, 8 * 64 * j + (m["tamper"] >> 8) % (8 * 48))
-        recs = hw.otfad_load_table(tab.ljust(256, b"\0"), kek, 4, kbswap, hwscr)
-        evs = []
-        for j, rec in enumerate(recs, start=1):
-            ctx = rec["ctx"]
-            ev = {"e": "Blob", "j": j, "authOk": rec["ivOk"], "crcOk": rec["crcOk"], "lo": limbs(rec["srt"]), "hi": limbs(ctx.hi),
-                  "vld": rec["ivOk"] and ctx.vld, "ade": rec["ivOk"] and ctx.vld and ctx.ade, "keyOk": True, "ctrOk": True, "attrOk": True}
-            if j <= len(cc["regs"]):
-                g, mg = cc["regs"][j - 1], m["regs"][j - 1]
-                ev["keyOk"] = rec["key"] == mg["key"][:16]
-                ev["ctrOk"] = rec["ctr"] == mg["ctr"]
-                ev["attrOk"] = (rec["end"] & 7) == g["flags"]  # RO / ADE / VLD exactly as configured
-            evs.append(ev)
-            ctxs.append(ctx if rec["ivOk"] else None)
-        evs.append({"e": "EndLoad", "n": len(recs)})
+        evs, ctxs = otfad_blob_events(cc, m, tab, kek, kbswap, hwscr)
+        evs.append({"e": "EndLoad", "n": len(evs)})
         traces["kb"] = evs
     else:
         traces["kb"] = kberr
@@ -532,6 +545,36 @@ def exec_otfad(cc, m):
     return traces
 
 
+def bee_locks(m):
+    return {e: (m["tamper"] >> (4 * e)) & 0xF for e in (0, 1)}
+
+
+def bee_blob_events(cc, m, hdrs, locks, tamper=False):
+    """The ROM model loads the exported BEE region headers -> (one Blob event per FAC region, the two engines)."""
+    engines = sorted({g["engine"] for g in cc["regs"]})
+    evs, j, engs = [], 0, [None, None]
+    for e in (0, 1):
+        if hdrs[e] is None:
+            if e in engines:
+                evs.append({"e": "Refused", "exc": "no header", "msg": f"engine {e} has regions but no header"})
+            continue
+        raw = hdrs[e]
+        if tamper and e == engines[0]:
+            nf = sum(1 for g in cc["regs"] if g["engine"] == e)
+            raw = flip(raw, 8 * 0x80 + (m["tamper"] >> 8) % (8 * (80 + 32 * nf)))
+        h = hw.bee_load_header(raw, m["swkeys"][e])
+        engs[e] = h["engine"]
+        mine = [g for g in cc["regs"] if g["engine"] == e]
+        common = (h["tagOk"] and h["rsvOk"] and h["mode"] == 1 and h["lock"] == locks[e] and h["count"] == len(mine) and len(raw) == 512
+                  and (h["start"], h["end"]) == (min(addr_range(cc, g)[0] for g in mine), max(addr_range(cc, g)[1] + 1 for g in mine)) if mine else False)
+        for k, (s, en, lvl) in enumerate(h["facs"]):
+            j += 1
+            g = mine[k] if k < len(mine) else None
+            evs.append({"e": "Blob", "j": j, "authOk": h["tagOk"], "crcOk": True, "lo": limbs(s), "hi": limbs((en - 1) & 0xFFFFFFFF), "vld": True, "ade": True,
+                        "keyOk": True, "ctrOk": h["nonce"] == m["bnonce"][e], "attrOk": bool(common and g is not None and lvl == g["level"])})
+    return evs, engs
+
+
 def exec_bee(cc, m):
     from spsdk.image.bee import BeeFacRegion, BeeKIB, BeeNxp, BeeProtectRegionBlock, BeeRegionHeader
 
@@ -539,7 +582,7 @@ def exec_bee(cc, m):
     plain = m["plain"]
     base = origin + cc["base"] * C + cc["sub"]
     engines = sorted({g["engine"] for g in cc["regs"]})
-    locks = {e: (m["tamper"] >> (4 * e)) & 0xF for e in (0, 1)}
+    locks = bee_locks(m)
 
     def headers():
         hs = [None, None]
@@ -558,27 +601,8 @@ def exec_bee(cc, m):
     traces = {}
     engs = [None, None]
     if hdrs is not None:
-        evs, j = [], 0
-        for e in (0, 1):
-            if hdrs[e] is None:
-                if e in engines:
-                    evs.append({"e": "Refused", "exc": "no header", "msg": f"engine {e} has regions but no header"})
-                continue
-            raw = hdrs[e]
-            if cc.get("tamper") and e == engines[0]:
-                nf = sum(1 for g in cc["regs"] if g["engine"] == e)
-                raw = flip(raw, 8 * 0x80 + (m["tamper"] >> 8) % (8 * (80 + 32 * nf)))
-            h = hw.bee_load_header(raw, m["swkeys"][e])
-            engs[e] = h["engine"]
-            mine = [g for g in cc["regs"] if g["engine"] == e]
-            common = (h["tagOk"] and h["rsvOk"] and h["mode"] == 1 and h["lock"] == locks[e] and h["count"] == len(mine) and len(raw) == 512
-                      and (h["start"], h["end"]) == (min(addr_range(cc, g)[0] for g in mine), max(addr_range(cc, g)[1] + 1 for g in mine)) if mine else False)
-            for k, (s, en, lvl) in enumerate(h["facs"]):
-                j += 1
-                g = mine[k] if k < len(mine) else None
-                evs.append({"e": "Blob", "j": j, "authOk": h["tagOk"], "crcOk": True, "lo": limbs(s), "hi": limbs((en - 1) & 0xFFFFFFFF), "vld": True, "ade": True,
-                            "keyOk": True, "ctrOk": h["nonce"] == m["bnonce"][e], "attrOk": bool(common and g is not None and lvl == g["level"])})
-        evs.append({"e": "EndLoad", "n": j})
+        evs, engs = bee_blob_events(cc, m, hdrs, locks, bool(cc.get("tamper")))
+        evs.append({"e": "EndLoad", "n": sum(1 for x in evs if x["e"] == "Blob")})
         traces["kb"] = evs
     else:
         traces["kb"] = kberr
@@ -599,6 +623,53 @@ def exec_bee(cc, m):
     return traces
 
 
+def iee_keys(g, mg):
+    """key1 / key2 of an IEE key blob as they are configured (CTR: key2 = the nonce, loaded word-wise)."""
+    ks = g["m"][2]
+    n1 = 16 if ks == "CTR128XTS256" else 32
+    if g["m"][1].startswith("AesCTR"):
+        # last word: below 2^31 (word + (address >> 4) stays below 2^32) unless the case places the wrap itself (g["w"], wrap lane)
+        nonce = mg["nonce"] + g.get("w", mg["w"]).to_bytes(4, "big")
+        return mg["key"][:n1], hw.rev_words(nonce)
+    return mg["key"][:n1], mg["key2"][:n1]
+
+
+def iee_blob_events(cc, m, table, kba, table_len):
+    """The ROM model loads the exported IEE key-blob page -> (one Blob event per record, the regions the engine then holds)."""
+    recs, _ = hw.iee_load_keyblobs(table.ljust(384, b"\0")[:384], m["ibkek1"], m["ibkek2"], kba, 4)
+    evs, regions = [], []
+    for j, rec in enumerate(recs, start=1):
+        ok = rec["tagOk"] and rec["region"] is not None
+        ev = {"e": "Blob", "j": j, "authOk": rec["tagOk"], "crcOk": rec["crcOk"], "lo": limbs(rec["start"]), "hi": limbs((rec["end"] - 1) & 0xFFFFFFFF),
+              "vld": ok, "ade": ok and rec["mode"] != "Bypass", "keyOk": True, "ctrOk": True, "attrOk": True}
+        if j <= len(cc["regs"]):
+            g, mg = cc["regs"][j - 1], m["regs"][j - 1]
+            k1, k2 = iee_keys(g, mg)
+            ev["keyOk"] = rec["key1"] == k1.ljust(32, b"\0")
+            ev["ctrOk"] = rec["key2"] == k2.ljust(32, b"\0")
+            ev["attrOk"] = (rec["mode"], rec["keysize"]) == (g["m"][1], g["m"][2]) and rec["lock"] == (0x95 if g["lock"] else 0x59) and rec["po"] == 0 and rec["rsvOk"] and table_len == 384
+        evs.append(ev)
+        regions.append(rec["region"] if ok else None)
+    return evs, regions
+
+
+def iee_reader(regions):
+    """One 16-byte fetch of the IEE model holding `regions` -> (context, decrypts?, cipher input as limbs, data or None where not modelled)."""
+    def read(a, cb, short):
+        for i, rg in enumerate(regions, start=1):
+            if rg is not None and rg.hit(a):
+                if rg.mode in ("Bypass",):
+                    return i, False, [0, 0], cb
+                if rg.mode in ("AesCTRWOAddress", "AesCTRkeystream"):
+                    return i, True, [0, 0], None  # not modelled: the property claims the absence of a crash only
+                inp, data = rg.decrypt_cell(a, cb)
+                if short and rg.mode == "AesXTS":
+                    data = b""  # a block cipher cannot work on a truncated block
+                return i, True, [inp, 0], data
+        return 0, False, [0, 0], cb
+    return read
+
+
 def exec_iee(cc, m):
     from spsdk.utils.crypto.iee import (Iee, IeeKeyBlob, IeeKeyBlobAttribute, IeeKeyBlobKeyAttributes, IeeKeyBlobLockAttributes,
                                         IeeKeyBlobModeAttributes, IeeNxp)
@@ -609,14 +680,7 @@ def exec_iee(cc, m):
     base = origin + cc["base"] * C + cc["sub"]
     kba = origin - 0x1000
 
-    def keys(g, mg):
-        ks = g["m"][2]
-        n1 = 16 if ks == "CTR128XTS256" else 32
-        if g["m"][1].startswith("AesCTR"):
-            # last word: below 2^31 (word + (address >> 4) stays below 2^32) unless the case places the wrap itself (g["w"], wrap lane)
-            nonce = mg["nonce"] + g.get("w", mg["w"]).to_bytes(4, "big")
-            return mg["key"][:n1], hw.rev_words(nonce)
-        return mg["key"][:n1], mg["key2"][:n1]
+    keys = iee_keys
 
     def blobs():
         res = []
@@ -666,41 +730,16 @@ def exec_iee(cc, m):
         tab = table
         if cc.get("tamper"):
             tab = flip(table, (m["tamper"] >> 8) % (8 * 96 * len(cc["regs"])))
-        recs, _ = hw.iee_load_keyblobs(tab.ljust(384, b"\0")[:384], m["ibkek1"], m["ibkek2"], kba, 4)
-        evs = []
-        for j, rec in enumerate(recs, start=1):
-            ok = rec["tagOk"] and rec["region"] is not None
-            ev = {"e": "Blob", "j": j, "authOk": rec["tagOk"], "crcOk": rec["crcOk"], "lo": limbs(rec["start"]), "hi": limbs((rec["end"] - 1) & 0xFFFFFFFF),
-                  "vld": ok, "ade": ok and rec["mode"] != "Bypass", "keyOk": True, "ctrOk": True, "attrOk": True}
-            if j <= len(cc["regs"]):
-                g, mg = cc["regs"][j - 1], m["regs"][j - 1]
-                k1, k2 = keys(g, mg)
-                ev["keyOk"] = rec["key1"] == k1.ljust(32, b"\0")
-                ev["ctrOk"] = rec["key2"] == k2.ljust(32, b"\0")
-                ev["attrOk"] = (rec["mode"], rec["keysize"]) == (g["m"][1], g["m"][2]) and rec["lock"] == (0x95 if g["lock"] else 0x59) and rec["po"] == 0 and rec["rsvOk"] and len(table) == 384
-            evs.append(ev)
-            regions.append(rec["region"] if ok else None)
-        evs.append({"e": "EndLoad", "n": len(recs)})
+        evs, regions = iee_blob_events(cc, m, tab, kba, len(table))
+        evs.append({"e": "EndLoad", "n": len(evs)})
         traces["kb"] = evs
     else:
         traces["kb"] = kberr
     if cc.get("tamper"):
         return {"kb": traces["kb"]}
     if out is not None and table is not None:
-        def read(a, cb, short):
-            for i, rg in enumerate(regions, start=1):
-                if rg is not None and rg.hit(a):
-                    if rg.mode in ("Bypass",):
-                        return i, False, [0, 0], cb
-                    if rg.mode in ("AesCTRWOAddress", "AesCTRkeystream"):
-                        return i, True, [0, 0], None  # not modelled: the property claims the absence of a crash only
-                    inp, data = rg.decrypt_cell(a, cb)
-                    if short and rg.mode == "AesXTS":
-                        data = b""  # a block cipher cannot work on a truncated block
-                    return i, True, [inp, 0], data
-            return 0, False, [0, 0], cb
+        traces["img"] = cell_events(cc, plain, out, iee_reader(regions))
 
-        traces["img"] = cell_events(cc, plain, out, read)
         def joint(cut):
             start = min([base] + [addr_range(cc, g)[0] for g in cc["regs"]])
             bins = BinaryImage("encrypted_blobs", offset=start - kba, alignment=16)
@@ -964,6 +1003,9 @@ def run(tier):
             if p.violated != inv:
                 raise Machinery(f"prediction run {cfg}: expected {inv} to be violated, got {p.violated}")
             pred[name] = f"{inv} violated after {p.generated} states"
+        import c13_hist
+
+        pred["history/in-place-export/repeated-image"] = c13_hist.predict()
         return mc, pred
 
     bg = Background(model_checking)
@@ -971,7 +1013,13 @@ def run(tier):
     bgw = Background(lambda: tlc.run("C13", "FlashEncGenWrap", "FlashEncGenWrap.cfg", workers=1, heap="4g", timeout=900))
     time.sleep(0.5)
     canary(v)
+    import c13_hist as hist  # (imports this module)
+
+    hist.canary(v)
     say(f"[C13] anchors + canary ok {v.timer.s()}s")
+
+    # ---- history lane: one object, repeated requests in any order (histories enumerated by TLC, decided by FlashEncHistTrace)
+    hist.lane(v, tier)
 
     # ---- GEN
     g = tlc.run("C13", "FlashEncGen", "FlashEncGen.cfg", workers=1, heap="6g", timeout=900)
@@ -1055,12 +1103,17 @@ def run(tier):
         "the image in which its counter word + (address >> 4) reaches 2^32; the block inside the cell, key size, short last cell in rotation) x API level "
         f"(IeeKeyBlob.encrypt_image when the image lies in the region, Iee.encrypt_image / IeeNxp in rotation), all unit-aligned cuts "
         f"({'one block position per structural case in rotation' if quick else 'all seven block positions'}); "
-        "a case is non-trivial if the image is not empty, SPSDK exported something and the engine model read at least one cell of it; distinct by (engine, mode, API, base, offset, length, regions)")
+        "a case is non-trivial if the image is not empty, SPSDK exported something and the engine model read at least one cell of it; distinct by (engine, mode, API, base, offset, length, regions)"
+        " + " + hist.rule(tier))
     v.cov["exhaustive"] = not quick  # quick: flag variants and three-region placements 1 in 3, one tail / offset per structural case
-    v.cov["checker_cmd"] = "TLC FlashEncMC (lemmas + I-spec) ; TLC FlashEncGen + FlashEncGenWrap (case spaces) ; TLC FlashEncTrace (decides every trace)"
+    v.cov["checker_cmd"] = ("TLC FlashEncMC (lemmas + I-spec) ; TLC FlashEncGen + FlashEncGenWrap (case spaces) ; TLC FlashEncTrace (decides every trace) ; "
+                            "TLC FlashEncHistMC (histories of one object: lemmas, I-spec variants, GEN) ; TLC FlashEncHistTrace (decides every history)")
     v.cov["trusted_base"] = ["AES block function of `cryptography` (ECB, one block at a time)", "c13_hw.py: CTR counter blocks, XTS tweak chain, RFC 3394 unwrap, CBC, CRC-32/MPEG-2 in pure Python",
                              "anchors/C13: NXP image_enc artefacts + published vectors (RFC 3394 4.1, IEEE 1619 vector 2, CRC check value) reproduced at the start of every run", "TLC 2 (tla2tools.jar)"]
     v.assumptions += [
+        "history lane: the engine model holds the CONFIGURED keys and ranges (not key blobs taken from the object under test); images are compared over the extent of the "
+        "plaintext (padding behind it is not compared); equality of the key-blob BYTES between two requests is not asserted (the property states what they unwrap to) - "
+        "counted in evidence as history_lane.not_asserted_keyblob_bytes_differ_from_first; OtfadNxp.export_image is called with the object's own table address, as binary_image() does",
         "IEE ranges are given as [start, end) with an aligned end address (schema text, NXP image_enc arguments and the repository's own adjacent key blobs share the boundary address); "
         "an inclusive end (…FFF) is outside the asserted domain for IEE (the I-spec predicts that its last page stays plaintext) - OTFAD accepts both conventions and both are asserted",
         "IEE AES-CTR: 'engine output = plaintext' is asserted only for cells in which the last big-endian word of the nonce plus (address >> 4) stays below 2^32 "
@@ -1083,6 +1136,18 @@ def replay(path):
     selftest()
     w = json.load(open(path))["witness"]
     cc = w["case"]
+    if w["kind"] == "hist":
+        import c13_hist as hist
+
+        t, rej = hist.replay(cc)
+        say(json.dumps({"id": t["id"], "ev": [dict(e, cells=[c for c in e.get("cells", []) if not c.get("ok")][:4]) for e in t["ev"]]})[:3000])
+        if rej:
+            for tid, (matched, length, evname) in rej.items():
+                say(f"  rejected at request {matched + 1}/{length} ({evname})")
+            say(f"VIOLATION property=C13 replay={path}")
+            return 1
+        say("replay: history accepted by the history spec")
+        return 0
     cc["kb"] = True
     trs = execute(cc)
     for t in trs:
